@@ -36,7 +36,8 @@ func NewPacketFactoryCopy() *PacketFactoryCopy {
 		},
 		payloadPool: &sync.Pool{
 			New: func() any {
-				buf := make([]byte, maxPayloadLen)
+				// room for the largest payload plus the RTX original sequence number
+				buf := make([]byte, maxPayloadLen+rtxSsrcByteLength)
 
 				return &buf
 			},
